@@ -133,3 +133,24 @@ def record_lines(text, drop_entry_id=False):
 def strip_args_echo(text):
     """XMAP text without the header lines that legitimately differ between runs: the '# coma ...' echo."""
     return '\n'.join(ln for ln in text.split('\n') if not ln.startswith('# coma '))
+
+
+def vary_syntax(cmap, rng):
+    """Equivalent spellings of the same CMAP content: CRLF line ends, comment / blank lines between data rows, extra
+    header comments, no trailing newline. Returns (text, name of the variant)."""
+    kind = rng.choice(['crlf', 'comments-between-rows', 'blank-lines', 'extra-header-comments', 'no-trailing-newline'])
+    lines = cmap.split('\n')
+    if kind == 'crlf':
+        return cmap.replace('\n', '\r\n'), kind
+    if kind == 'comments-between-rows':
+        out = []
+        for ln in lines:
+            out.append(ln)
+            if ln and not ln.startswith('#') and rng.random() < 0.1:
+                out.append('# note')
+        return '\n'.join(out), kind
+    if kind == 'blank-lines':
+        return cmap + '\n\n', kind
+    if kind == 'extra-header-comments':
+        return '# Nickase Recognition Site 1:\tCTTAAG\n# Number of Consensus Maps:\t3\n' + cmap, kind
+    return cmap.rstrip('\n'), kind
